@@ -259,6 +259,29 @@ static void run_amg() {
                 return Apply([P, keep, Z](const std::vector<double> &f, std::vector<double> &x) { P->apply(f, x); });
             });
         }
+        // index types of the user arrays: the hierarchy built from int / unsigned / size_t / long long arrays (sorted or reversed rows) is the same
+        {
+            std::string key = vf::KS() << "amgi|" << id;
+            if (vf::take([&] { return key; })) {
+                vf::nontrivial(vf::hstr(key));
+                ptree p; p.put("coarsening.type", "smoothed_aggregation"); p.put("relax.type", "ilu0"); p.put("coarse_enough", 2);
+                AMG ref(std::tie(s.n, s.ptr, s.col, s.val), p);
+                Sys rev = s; for (int r = 0; r < rev.n; ++r) { int w = (int)(rev.ptr[r + 1] - rev.ptr[r]); std::vector<int> o(w); for (int q = 0; q < w; ++q) o[q] = w - 1 - q; permute_row(rev, r, o); }
+                auto F = rhs_set(s.n);
+                auto cmp = [&](const char *ty, AMG &P) {
+                    for (auto &f : F) { std::vector<double> x0(s.n, 0.0), x1(s.n, 0.0); ref.apply(f, x0); P.apply(f, x1); if (std::memcmp(x0.data(), x1.data(), 8 * s.n) != 0) { vf::fail(std::string("index_type.amg.") + ty, key, "hierarchy built from " + std::string(ty) + " index arrays acts differently | " + show(s)); return; } }
+                    vf::count("index_type_builds_equal");
+                };
+                for (const Sys *m : {&s, &rev}) {
+                    { std::vector<int> pt(m->ptr.begin(), m->ptr.end()), cl(m->col.begin(), m->col.end()); int n = m->n; AMG P(std::tie(n, pt, cl, m->val), p); cmp("int", P); }
+                    { std::vector<unsigned> pt(m->ptr.begin(), m->ptr.end()), cl(m->col.begin(), m->col.end()); unsigned n = m->n; AMG P(std::tie(n, pt, cl, m->val), p); cmp("unsigned", P); }
+                    { std::vector<size_t> pt(m->ptr.begin(), m->ptr.end()), cl(m->col.begin(), m->col.end()); size_t n = m->n; AMG P(std::tie(n, pt, cl, m->val), p); cmp("size_t", P); }
+                    { std::vector<long long> pt(m->ptr.begin(), m->ptr.end()), cl(m->col.begin(), m->col.end()); long long n = m->n; AMG P(std::tie(n, pt, cl, m->val), p); cmp("llong", P); }
+                    { std::vector<long> pt(m->ptr.begin(), m->ptr.end()); std::vector<int> cl(m->col.begin(), m->col.end()); size_t n = m->n; const long *pp = pt.data(); const int *cp = cl.data(); const double *vp = m->val.data();
+                      AMG P(std::make_tuple(n, make_iterator_range(pp, pp + n + 1), make_iterator_range(cp, cp + cl.size()), make_iterator_range(vp, vp + cl.size())), p); cmp("long_int_pointer_ranges", P); }
+                }
+            }
+        }
         // make_solver: solution and iteration count identical
         for (const char *sv : {"cg", "bicgstab", "gmres"}) {
             std::string key = vf::KS() << "mks|" << id << "|" << sv;
@@ -375,7 +398,7 @@ int main(int argc, char **argv) {
     if (vf::section("relax") || vf::section("relaxz")) run_relax();
 #endif
 #ifdef P_AMG
-    if (vf::section("amg") || vf::section("amgz") || vf::section("mks") || vf::section("solve")) run_amg();
+    if (vf::section("amg") || vf::section("amgz") || vf::section("amgi") || vf::section("mks") || vf::section("solve")) run_amg();
 #endif
 #ifdef P_COMP
     if (vf::section("cpr") || vf::section("schur") || vf::section("mkb")) run_comp();
